@@ -72,7 +72,10 @@ def generate(rng, cfg: Dict) -> Dict:
             h = c.pick(victims)
             body.insert(c.int(len(classes), len(body)), ["replace", h, classes[h], 50 + h])
     cycles = c.int(3, 6)
-    end = c.weighted([(["dropall", "gc", "sweep", "census"], 6), (["dropall", "gc", "gc", "sweep", "census"], 1), (["dropall", "sweep", "gc", "sweep", "census"], 2)])
+    end = c.weighted([(["dropall", "gc", "sweep", "census"], 6), (["dropall", "gc", "gc", "sweep", "census"], 1), (["dropall", "sweep", "gc", "sweep", "census"], 2),
+                      # no explicit sweep: the only thing that happens after the collection is the evaluation of a query
+                      # over an explicit domain of plain numbers ("every query evaluation also sweeps")
+                      (["dropall", "gc", "eval_numbers", "census"], 2)])
     return {"property": "C20", "machine": "lifecycle_sim", "salt": c.int(0, 1 << 30), "explicit_domains": explicit_domains, "cycles": cycles, "ops": body, "cycle_end": end}
 
 
@@ -244,6 +247,12 @@ def _do_query(world, op, cycle, program_refs, log, counters) -> bool:
     return explicit
 
 
+def _eval_numbers(counters):
+    x = let(int, domain=[1, 2, 3])
+    list(an(entity(x, x > 1)).evaluate())
+    counters.inc("fault.sweep_left_to_an_explicit_domain_evaluation")
+
+
 def execute(scenario: Dict) -> Dict:
     log, counters = kernel.EventLog(), kernel.Counters()
     verdicts: List[Dict] = []
@@ -281,6 +290,8 @@ def execute(scenario: Dict) -> Dict:
             elif kind == "query":
                 used_explicit = _do_query(world, op, cycle, program_refs, log, counters) or used_explicit
                 queries_built += 1
+            elif kind == "eval_numbers":
+                _eval_numbers(counters)
             elif kind == "dropall":
                 for h in list(world.handles):
                     world.drop(h)
